@@ -158,3 +158,93 @@ Lemma fixed_paths_ignore_request : forall cfg L p req req' c c' now0 now0' now1 
   is_certgen p = false ->
   effective_window cfg L p req c now0 now1 now2 = effective_window cfg L p req' c' now0' now1' now2.
 Proof. intros cfg L p; destruct p; intros; try discriminate; reflexivity. Qed.
+
+(* ---- the issuing CA certificate's validity is not an input of the window ---- *)
+Lemma effective_window_ca_bound : forall ca_nb ca_na cfg L p req c now0 now1 now2 nb na,
+  sane L -> 0 <= issued_at c now0 -> 0 <= now1 <= now2 -> now2 < two64 * NS / 4 ->
+  now1 < issued_at c now0 + two64 * NS / 4 ->
+  effective_window_ca (ca_nb, ca_na) cfg L p req c now0 now1 now2 = Some (nb, na) ->
+  nb <= now2 /\ now2 - NS < nb /\
+  na <= now2 + path_limit L p /\
+  (is_certgen p = true ->
+     na <= Z.max nb (issued_at c now0 + maxc L + (now2 - now1)) /\
+     match req with Some r => 0 < r <= maxc L /\ na <= now2 + r | None => True end) /\
+  (is_certgen p = false -> na = nb + path_limit L p).
+Proof.
+  intros ca_nb ca_na cfg L p req c now0 now1 now2 nb na HL Hi Hn Hb Hb2 H.
+  unfold effective_window_ca in H.
+  exact (effective_window_bound cfg L p req c now0 now1 now2 nb na HL Hi Hn Hb Hb2 H).
+Qed.
+
+Lemma effective_window_ca_independent : forall ca ca' cfg L p req c now0 now1 now2,
+  effective_window_ca ca cfg L p req c now0 now1 now2 = effective_window_ca ca' cfg L p req c now0 now1 now2.
+Proof. reflexivity. Qed.
+
+(* a certificate may outlive its CA (allowed by the statement); it never starts after now2, even
+   under a CA that is not valid yet *)
+Lemma not_yet_valid_ca_starts_now : forall ca_nb ca_na cfg L p req c now0 now1 now2 nb na,
+  sane L -> 0 <= issued_at c now0 -> 0 <= now1 <= now2 -> now2 < two64 * NS / 4 ->
+  now1 < issued_at c now0 + two64 * NS / 4 -> now2 < ca_nb ->
+  effective_window_ca (ca_nb, ca_na) cfg L p req c now0 now1 now2 = Some (nb, na) ->
+  nb < ca_nb /\ nb <= now2.
+Proof.
+  intros ca_nb ca_na cfg L p req c now0 now1 now2 nb na HL Hi Hn Hb Hb2 Hca H.
+  destruct (effective_window_ca_bound ca_nb ca_na cfg L p req c now0 now1 now2 nb na HL Hi Hn Hb Hb2 H)
+    as [A _]. lia.
+Qed.
+
+(* the nested-validity generator: under a CA certificate that becomes valid 40 minutes from now (and
+   is far from its end) a 24 h certificate starts in the future and ends after now2 + 24 h *)
+Lemma nested_validity_refuted : exists ca_nb ca_na now2 d,
+  0 < d /\ now2 + d < ca_na /\
+  let '(nb, na) := x509_window_nested ca_nb ca_na now2 d in now2 < nb /\ now2 + d < na.
+Proof.
+  exists ((1790000000 + 2400) * NS), ((1790000000 + 8 * 365 * 86400) * NS), (1790000000 * NS), (86400 * NS).
+  vm_compute. repeat split; reflexivity.
+Qed.
+(* and with a CA whose NotBefore is not in the future it is the code's window (clamped above) *)
+Lemma nested_validity_agrees_when_ca_valid : forall ca_nb ca_na now2 d,
+  ca_nb <= now2 -> now2 + d <= ca_na -> x509_window_nested ca_nb ca_na now2 d = x509_window now2 d.
+Proof.
+  intros ca_nb ca_na now2 d H1 H2. unfold x509_window_nested, x509_window.
+  rewrite Z.max_l by lia. rewrite Z.min_l by lia. reflexivity.
+Qed.
+
+(* an observation the correspondence accepts does not start in the future *)
+Lemma obs_ok_not_future : forall ca cfg L p req c t0 t1 va vb,
+  window_obs_ok_ca ca cfg L p req c t0 t1 true va vb = true -> obs_starts_in_future t1 va = false.
+Proof.
+  intros ca cfg L p req c t0 t1 va vb. unfold window_obs_ok_ca, window_obs_ok, obs_starts_in_future.
+  destruct (effective_duration cfg L p req c (t0 * NS) (t0 * NS)) as [dhi|]; [|discriminate].
+  destruct (effective_duration cfg L p req c ((t1 + 1) * NS) ((t1 + 1) * NS)) as [dlo|]; [|discriminate].
+  intro H. apply andb_prop in H. destruct H as [H _]. apply andb_prop in H. destruct H as [_ H].
+  apply Z.leb_le in H. apply Z.ltb_ge. lia.
+Qed.
+
+(* ... nor ends beyond the moment of issuance plus the requested duration / the path's limit *)
+Lemma effective_duration_le_limit : forall cfg L p req c now0 now1 d,
+  effective_duration cfg L p req c now0 now1 = Some d -> d <= obs_limit L p req.
+Proof.
+  intros cfg L p req c now0 now1 d. unfold effective_duration, obs_limit.
+  destruct p; cbn [is_certgen path_limit andb].
+  1,2: intro H; apply handler_duration_facts in H; destruct H as [H1 [_ [H3 _]]];
+       destruct req as [r|]; [|exact H1];
+       destruct H3 as [[R1 R2] R3];
+       destruct (0 <? r) eqn:A; [|lia]; destruct (r <=? maxc L) eqn:B; [|lia]; cbn [andb]; exact R3.
+  all: intro H; inversion H; subst; destruct req; lia.
+Qed.
+
+Lemma obs_ok_not_beyond_limit : forall ca cfg L p req c t0 t1 va vb,
+  window_obs_ok_ca ca cfg L p req c t0 t1 true va vb = true ->
+  (t1 + 1 + Z.quot (obs_limit L p req) NS + 1 <? vb) = false.
+Proof.
+  intros ca cfg L p req c t0 t1 va vb. unfold window_obs_ok_ca, window_obs_ok.
+  destruct (effective_duration cfg L p req c (t0 * NS) (t0 * NS)) as [dhi|] eqn:E; [|discriminate].
+  destruct (effective_duration cfg L p req c ((t1 + 1) * NS) ((t1 + 1) * NS)) as [dlo|]; [|discriminate].
+  intro H. apply andb_prop in H. destruct H as [H H3]. apply andb_prop in H. destruct H as [_ H2].
+  apply andb_prop in H3. destruct H3 as [_ H3].
+  apply Z.leb_le in H2. apply Z.leb_le in H3.
+  pose proof (effective_duration_le_limit _ _ _ _ _ _ _ _ E) as Q.
+  assert (M : Z.quot dhi NS <= Z.quot (obs_limit L p req) NS) by (apply Z.quot_le_mono; [unfold NS; lia|exact Q]).
+  apply Z.ltb_ge. lia.
+Qed.
